@@ -64,7 +64,8 @@ def ynorm(o):
 
 
 def rand_value(rng):
-    return [3, .25, None, 'abc', [1, 2], (1, 2.5), np.array([1., 2.]), True, -7, 1e-3, (0.05, 0.5, 0.05), 'pchip'][int(rng.integers(12))]
+    return [3, .25, None, 'abc', [1, 2], (1, 2.5), np.array([1., 2.]), True, -7, 1e-3, (0.05, 0.5, 0.05), 'pchip',
+            ((3, 3),), [(2, 3)], [[1, 2], (3, 4)], {'a': (1, 2)}][int(rng.integers(16))]
 
 
 def signal_for(k, n=96):
@@ -119,8 +120,19 @@ def yaml_roundtrips(ctx, S, cfg, name, case, wdir, tag):
     for route in ('file', 'text'):
         try:
             if route == 'file':
-                cfg.to_yaml_file(fn)
-                back = S.SiftConfig.from_yaml_file(fn)
+                if ctx.evaluations % 3 == 0:
+                    # the same file addressed by a bare name relative to the working directory
+                    cwd = os.getcwd()
+                    os.chdir(wdir)
+                    try:
+                        cfg.to_yaml_file(os.path.basename(fn))
+                        back = S.SiftConfig.from_yaml_file(os.path.basename(fn))
+                    finally:
+                        os.chdir(cwd)
+                    ctx.count('yaml_files_addressed_by_bare_name')
+                else:
+                    cfg.to_yaml_file(fn)
+                    back = S.SiftConfig.from_yaml_file(fn)
             else:
                 txt = cfg.to_yaml_text()
                 back = S.SiftConfig.from_yaml_stream(txt)
